@@ -150,9 +150,9 @@ def run(cx):
     # production index >= len(productions), whatever the four names are
     unp = [st_ for st_ in walk_local(ver) if isinstance(st_, ast.Assign) and isinstance(st_.targets[0], ast.Tuple) and len(st_.targets[0].elts) == 4
            and all(isinstance(x_, ast.Name) for x_ in st_.targets[0].elts)]
-    rules_n, pid_n = ("prod_rules", "cur_prod_id") if not unp else (unp[0].targets[0].elts[1].id, unp[0].targets[0].elts[2].id)
+    cands_ = [("prod_rules", "cur_prod_id")] + [(u_.targets[0].elts[1].id, u_.targets[0].elts[2].id) for u_ in unp]
     from sa.guards import canon_facts as _cfs
-    ok = len(pa) == 1 and ("<", pid_n, f"len({rules_n})", False) in _cfs(pa[0])
+    ok = len(pa) == 1 and any(("<", pid_n, f"len({rules_n})", False) in _cfs(pa[0]) for rules_n, pid_n in cands_)
     cx.ob("R03a", pa[0] if pa else ver, ok, "a symbol counts as examined only after all its productions were walked" if ok else "symbols are marked examined before all productions are walked")
     # the constructor calls the check with the nullables of the same grammar, after the table is built
     ctor = cx.func(REL, "LLParser.__init__", "R03a")
